@@ -57,6 +57,29 @@ fn pb_fixed_truncated() {
     kani::cover!(n == 8);
 }
 
+/// (complete) the well-known scalar wrapper messages of prost/types.rs (BoolValue, Int32Value, UInt32Value, Int64Value,
+/// UInt64Value, FloatValue, DoubleValue as `impl Message for bool / i32 / u32 / i64 / u64 / f32 / f64`): for every value,
+/// encode_raw writes exactly encoded_len() bytes (the default-value test must be the same in both)
+#[kani::proof]
+#[kani::unwind(12)]
+fn pb_wrappers_len() {
+    macro_rules! one { ($t:ty, $v:expr) => {{
+        let v: $t = $v;
+        let mut mem = [0u8; 16];
+        let n;
+        { let mut w: &mut [u8] = &mut mem[..]; Message::encode_raw(&v, &mut w); n = 16 - w.len(); }
+        assert!(Message::encoded_len(&v) == n);
+    }}; }
+    one!(bool, kani::any());
+    one!(i32, kani::any());
+    one!(u32, kani::any());
+    one!(i64, kani::any());
+    one!(u64, kani::any());
+    one!(f32, kani::any());
+    one!(f64, kani::any());
+    kani::cover!(true);
+}
+
 // skip_field is verified in Verus (vf/units/prost.vu, rule D18); Kani harnesses over it (recursion through
 // generic Buf code) did not finish within 25 minutes even for 4-byte inputs and are not kept.
 
